@@ -610,8 +610,14 @@ pub mod watchdog {
 fn run_case_caught<P: Part>(part: &P, case: &P::Case, obs: &mut Obs) -> Result<(), Fail> {
     crate::panics::clear_thread();
     watchdog::begin(part.name(), serde_json::to_string(case).unwrap_or_default());
+    let t0 = Instant::now();
     let r = run_case_caught_inner(part, case, obs);
     watchdog::end();
+    if let Some(ms) = std::env::var("VERIF_SLOW_MS").ok().and_then(|s| s.parse::<u128>().ok()) {
+        if t0.elapsed().as_millis() > ms {
+            eprintln!("SLOW {} ms [{}]: {}", t0.elapsed().as_millis(), part.name(), serde_json::to_string(case).unwrap_or_default());
+        }
+    }
     r
 }
 
